@@ -2,7 +2,8 @@
 
    One output line per input line (same format as harness/pipe.cpp).  Line format (tokens separated by one blank):
 
-     cfg e<k> queue|inline [limit=<n>]     user executor k: FIFO queue drained by `call`/`drain`, or Call-inside-Submit;
+     cfg e<k> queue|manual|inline [limit=<n>]   user executor k: FIFO queue drained by `call`/`drain` (manual: the queue is the
+                                           library's ManualExecutor, `call` = Drain() = every queued job), or Call-inside-Submit;
                                            limit=n: Submits number n+1, n+2, … are answered with Drop
      in <pid> src <source>                 inner pipeline <pid> (built by a functor with behaviour async:<pid>);
      in <pid> then <step>                  must be complete before the line that refers to it
@@ -117,6 +118,7 @@ def parseSrc (tab : Table) : List String → Option (Src × Bool × Option Step)
 
 structure D where
   cfg : List (Nat × ECfg) := []
+  manual : List Nat := []     -- user executors backed by yaclib::ManualExecutor: `call` = Drain() = every queued job
   tab : Table := []
   st : State := {}
   evs : List Event := []      -- client events of the current program (for the spec)
@@ -204,7 +206,8 @@ def stepLine (d : D) (ts : List String) : D × Option String :=
        let lim := match rest with
          | [l] => (after "limit=" l).bind String.toNat?
          | _ => none
-       ({ d with cfg := (k, ⟨kind == "queue", lim⟩) :: d.cfg }, some "ok")
+       ({ d with cfg := (k, ⟨kind != "inline", lim⟩) :: d.cfg,
+                 manual := if kind == "manual" then k :: d.manual else d.manual }, some "ok")
      | none => (d, some "bad"))
   | "in" :: pid :: "src" :: rest =>
     (match pid.toNat?, parseSrc d.tab rest with
@@ -231,7 +234,7 @@ def stepLine (d : D) (ts : List String) : D × Option String :=
      | none => (d, some "bad"))
   | ["call", e] =>
     (match parseE e with
-     | some k => (apply d (.call k), none)
+     | some k => (if d.manual.contains k then drain d k 100000 else apply d (.call k), none)
      | none => (d, some "bad"))
   | ["drain", e] =>
     (match parseE e with
